@@ -65,6 +65,24 @@ def is_flush(cs):
     return cs.is_trait_method("EntryIoStream", "flush")
 
 
+def through_forwarders(F, sb, pi, depth=2):
+    """a body whose only action is to hand its parameter `pi` on to one other function of the crate (`fn write_entry(&mut self, e) {
+    self.consume(e) }`, typically the method of a private seam trait) stands for that function"""
+    while depth > 0:
+        calls = [c for c in sb.calls() if c.name not in ("deref", "deref_mut", "as_ref", "as_mut", "borrow", "borrow_mut")]
+        if len(calls) != 1 or len(list(sb.live_blocks())) > 4:
+            break
+        c = calls[0]
+        nxt = [tb for tb in local_callee_bodies(F, c) if tb.crate == BG and tb.def_ != sb.def_]
+        spr = Prov(sb)
+        pos = [ai for ai, a in enumerate(c.args) if {x for x in spr.operand(a) if x[0] != "via"} == {("arg", pi, ())}]
+        if len(nxt) != 1 or len(pos) != 1:
+            break
+        sb, pi = nxt[0], pos[0] + 1
+        depth -= 1
+    return sb, pi
+
+
 def append_chain(ctx, F, rule, body, local, depth=0, seen=None):
     """linear hand-over of `local` down to a ring insertion; returns list of (body, insertion callsite)"""
     seen = seen if seen is not None else set()
@@ -148,7 +166,8 @@ def run(ctx):
                         return False
                     for sb in local_callee_bodies(F, cs):
                         if sb.crate == BG:
-                            consumers.append((sb, i + 1, d, cs))
+                            sb, pi = through_forwarders(F, sb, i + 1)
+                            consumers.append((sb, pi, d, cs))
                             return True
                     return False
                 check_linear(ctx, "R01.2", d, st, allowed, what="popped-entry")
